@@ -82,10 +82,21 @@ def z3cli_check(formulas, timeout_ms):
     return v
 
 
+def load_factor():
+    """solver budgets are wall-clock: on a machine that is oversubscribed (other checks, test suites) the same query
+    needs proportionally longer -- the budget is stretched by the load per core (1x .. 8x), so that a verdict does not
+    flip to `unknown` because the cores were busy"""
+    try:
+        per_core = os.getloadavg()[0] / (os.cpu_count() or 1)
+    except OSError:
+        return 1.0
+    return min(8.0, max(1.0, per_core))
+
+
 def check(formulas, timeout_ms=None, want_model=False, fallback=True,
           cross=False):
     """Satisfiability of the conjunction of `formulas`."""
-    timeout_ms = timeout_ms or QUICK_TIMEOUT_MS
+    timeout_ms = int((timeout_ms or QUICK_TIMEOUT_MS) * load_factor())
     if os.environ.get("PYVC_NO_FALLBACK"):
         fallback = False
     STATS['queries'] += 1
